@@ -96,12 +96,13 @@ class Keccak(object):
         needed = len(M)*8
         # handle NIST MSB alignment to Keccak LSB alignment for last byte
         # (see Keccak SHA-3 submission §6.1):
-        if bitlen:
+        if bitlen is not None:
             assert bitlen<=needed
             needed = bitlen
             if not self.duplexing:
-                b = Bits(M[-1:],size=needed%8)[::-1]
-                M = M[:needed//8]+bytes([b.ival])
+                q = needed//8
+                b = Bits(M[q:q+1],size=needed%8)[::-1]
+                M = M[:q]+bytes([b.ival])
         r = self.r
         br,rr = divmod(r,8)
         if br==0: br = 1 # rates below 8 bits: still read the message byte by byte
